@@ -246,6 +246,9 @@ def check(ctx):
     # not count) exactly one set_config_mode(any pump or blower on)
     from ..facademodel import mode_decision
     mode_decision(ctx, repo, "R5")
+    ctx.rule("R7", "the facade keeps hearing about its devices: a device listener that raised once does not stop later changes of that device from being delivered (C03's Observable model borrowed) - the mode decision is re-evaluated on every pump / blower change")
+    from .c03 import observers as _observers
+    _observers(ctx.borrowed("R7", "C03", key_contains="failing-observer"), repo)
     ctx.rule("R6", "what counts as on: GeckoPump and GeckoBlower, built by their constructors on a model spa, read is_on == (state is not 'OFF') for every label of every label list their state items have in any shipped table (pumps OFF/HIGH/LOW and OFF/HIGH, waterfall and blower OFF/ON) and == the flag for Bool items")
     from ..facademodel import device_on_states
     from ..packs import tables
